@@ -79,6 +79,7 @@ pub fn dispatch(which: &str, v: &Value, case: &Value) -> Value {
         "c01_tok" => c01_tok(v),
         "c01_l1c" => c01_l1c(v),
         "c01_scan" => c01_scan(v),
+        "c04_prec" => c04_prec(v),
         "c01_bin" => c01_bin(v),
         "c01_flags" => c01_flags(v),
         "c01_dom" => c01_dom(v),
@@ -252,6 +253,37 @@ fn c01_scan(v: &Value) -> Value {
         let w = want[0] || want[1];
         json!({"reproduced": got != w, "exception_found": got, "want": w, "matched": r.matched, "api": "Blocker::check (exception list scan)"})
     }
+}
+/// rule i matches iff the counterexample says so: empty pattern vs a literal that never occurs
+fn outcome_part(o: bool) -> FilterPart {
+    if o { FilterPart::Empty } else { FilterPart::Simple("zz-never-in-url".into()) }
+}
+/// precedence, lifted to Blocker::new + check_parameterised on rule values of the same categories
+fn c04_prec(v: &Value) -> Value {
+    let (o1, o2, o3) = (b(&v["o1"]), b(&v["o2"]), b(&v["o3"]));
+    let (matched_rule, force, tagged, a_on) = (b(&v["matched_rule"]), b(&v["force"]), b(&v["tagged"]), b(&v["a_on"]));
+    let d = NetworkFilterMask::DEFAULT_OPTIONS;
+    let mut rules = if !tagged {
+        vec![mk_filter((d | NetworkFilterMask::IS_IMPORTANT).bits(), outcome_part(o1), None, None), mk_filter(d.bits(), outcome_part(o2), None, None),
+             mk_filter((d | NetworkFilterMask::IS_EXCEPTION).bits(), outcome_part(o3), None, None)]
+    } else {
+        vec![mk_filter(d.bits(), outcome_part(o1), None, Some("a")), mk_filter(d.bits(), outcome_part(o2), None, None),
+             mk_filter((d | NetworkFilterMask::IS_EXCEPTION).bits(), outcome_part(o3), None, Some("a"))]
+    };
+    for (i, r) in rules.iter_mut().enumerate() { r.id = (i + 1) as u64; }
+    let mut bl = blocker_of(rules, false);
+    if a_on { bl.use_tags(&["a"]); }
+    let req = mk_request("https://x.com/page", "x.com", RequestType::Script, false, true, false, None);
+    let res = bl.check_parameterised(&req, &ResourceStorage::default(), matched_rule, force);
+    let imp = !tagged && o1;
+    let blocking = if !tagged { imp || (!matched_rule && o2) } else { !matched_rule && ((o1 && a_on) || o2) };
+    let exc_active = if !tagged { o3 } else { o3 && a_on };
+    let exc_consulted = if imp { false } else if blocking { true } else { matched_rule || force };
+    let exception = exc_consulted && exc_active;
+    let want_matched = !exception && (blocking || matched_rule);
+    let ok = res.matched == want_matched && res.important == imp && res.exception.is_some() == exception && res.filter.is_some() == blocking;
+    json!({"reproduced": !ok, "got": {"matched": res.matched, "important": res.important, "exception": res.exception.is_some(), "filter": res.filter.is_some()},
+           "want": {"matched": want_matched, "important": imp, "exception": exception, "filter": blocking}, "api": "Blocker::new + check_parameterised"})
 }
 fn alnum(c: u8) -> bool {
     c.is_ascii_alphanumeric() || c == b'%'
